@@ -78,12 +78,17 @@ def norm_ast(expr: str) -> Optional[str]:
     return ast.dump(t)
 
 
-def layout(rng: random.Random, items: List[Tuple[str, Optional[str]]], is_async: bool, glob: bool = False) -> Tuple[str, int]:
+def layout(rng: random.Random, items: List[Tuple[str, Optional[str]]], is_async: bool, glob: bool = False, big: bool = False) -> Tuple[str, int]:
     """Source of a function containing the with statement; returns (source, line of the `with` keyword)."""
     kw = "async with" if is_async else "with"
     parts = [f"{cm}" + (f" as {t}" if t is not None else "") for cm, t in items]
     style = rng.choice(["one", "paren_multi", "paren_one", "backslash"]) if len(items) > 1 or rng.random() < 0.5 else "one"
     pre = (["    global G", "    loc = None"] if glob else ["    loc = G = None", "    pad = 1"]) + ["    pad += 1"] * rng.randint(0, 3)
+    if big:
+        # a large code object: 140 global names come first, so the LOAD_GLOBAL that begins the with statement's line needs an
+        # EXTENDED_ARG prefix (dis attaches the line start to the prefix)
+        # (the attribute / method / global names the targets may use are touched first, so that their own indices stay small)
+        pre = pre + ["    pad = (loc.x, loc.attr, loc.y, loc.m, loc.f, f, g, h)", "    pad = [" + ", ".join(f"g{i}" for i in range(140)) + "]"]
     if style == "one":
         stmt = [f"    {kw} " + ", ".join(parts) + ":"]
     elif style == "paren_one":
@@ -211,7 +216,10 @@ class C08(PropCheck):
                 r = rng.random()
                 t = None if r < 0.15 else (rng.choice(UNSUPPORTED) if r < 0.25 else rand_target(rng, rng.randint(0, dmax)))
                 items.append([rng.choice(["cm", "cm2", "open(a)"]), t])
-            out.append({"k": "gen", "items": items, "async": rng.random() < 0.4, "lseed": rng.randrange(1 << 30), "glob": rng.random() < 0.3})
+            out.append({"k": "gen", "items": items, "async": rng.random() < 0.4, "lseed": rng.randrange(1 << 30), "glob": rng.random() < 0.3,
+                        "big": rng.random() < 0.12})
+            if out[-1]["big"]:
+                out[-1]["glob"] = False      # (the model compiler does not track name indices: a global target would need a prefix of its own)
         for t in UNSUPPORTED:
             out.append({"k": "gen", "items": [["cm", t]], "async": False, "lseed": 1})
         # dynamic leg: the metadata must also be right on live frames — probes inside manager methods (the context is exiting,
@@ -236,7 +244,7 @@ class C08(PropCheck):
             return self.run_file(case["path"])
         if case["k"] == "dyn":
             return self.run_dyn(case)
-        src, with_line = layout(random.Random(case["lseed"]), [tuple(x) for x in case["items"]], case["async"], case.get("glob", False))
+        src, with_line = layout(random.Random(case["lseed"]), [tuple(x) for x in case["items"]], case["async"], case.get("glob", False), case.get("big", False))
         ns: Dict[str, Any] = {}
         try:
             code = compile(src, "<c08>", "exec")
@@ -307,6 +315,11 @@ class C08(PropCheck):
         else:
             src = progs.gen_program(random.Random(case["pseed"]), case["kind"], case["depth"], probes=True)
         lines = src.splitlines()
+        # the with / async with statements of the source by the line of their keyword, with the source text of their items
+        with_items: Dict[int, List[str]] = {}
+        for node in ast.walk(ast.parse(src)):
+            if isinstance(node, (ast.With, ast.AsyncWith)):
+                with_items[node.lineno] = [ast.get_source_segment(src, it.context_expr) or "" for it in node.items]
         probs: List[str] = []
         seen = [0]
 
@@ -333,9 +346,9 @@ class C08(PropCheck):
                     want = tof[id(c.obj)]
                     if c.varname != want:
                         probs.append(f"{label}: context of manager with target {want!r} (exiting={c.is_exiting}) reports varname {c.varname!r}")
-                    if c.start_line is None or not (1 <= c.start_line <= len(lines)) or "with " not in lines[c.start_line - 1]:
-                        probs.append(f"{label}: start_line {c.start_line} is not the line of a with statement")
-                    elif f"W.T({want!r}, " not in lines[c.start_line - 1]:
+                    if c.start_line is None or c.start_line not in with_items:
+                        probs.append(f"{label}: start_line {c.start_line} is not the line of the with / async with keyword of a statement")
+                    elif not any(it.startswith(f"W.T({want!r}, ") for it in with_items[c.start_line]):
                         probs.append(f"{label}: start_line {c.start_line} is the line of another with statement "
                                      f"({lines[c.start_line - 1].strip()[:60]!r}), not the one holding the target {want!r}")
             except Exception as e:
